@@ -106,6 +106,9 @@ func TagSafe(rule string) bool {
 	return true
 }
 
+// ParamKey is the key type of the slice-map carrier's maps.
+type ParamKey string
+
 const (
 	Var        = "var"
 	StructRM   = "struct-rm"
@@ -210,9 +213,10 @@ func Carry(carrier string, v reflect.Value, rule string) (out Out, ok bool) {
 		m := map[string]interface{}{"k": v.Interface()}
 		return Call(func() error { return valid.Map(m, valid.RM{"k": rule}) }), true
 	case SliceMap:
-		mt := reflect.MapOf(reflect.TypeOf(""), v.Type())
+		// the key type is a DEFINED string type (type Param string): a string-keyed map like any other
+		mt := reflect.MapOf(reflect.TypeOf(ParamKey("")), v.Type())
 		m := reflect.MakeMap(mt)
-		m.SetMapIndex(reflect.ValueOf("k"), v)
+		m.SetMapIndex(reflect.ValueOf(ParamKey("k")), v)
 		sl := reflect.MakeSlice(reflect.SliceOf(mt), 0, 1)
 		sl = reflect.Append(sl, m)
 		return Call(func() error { return valid.Map(sl.Interface(), valid.RM{"k": rule}) }), true
